@@ -7,7 +7,9 @@ mod engine;
 mod oracle;
 mod props;
 mod refm;
+mod regimes;
 mod report;
+mod sched;
 mod subjects;
 mod types;
 
@@ -58,6 +60,10 @@ fn main() {
         "C02" => props::c02::run(&ctx),
         "C03" => props::c03::run(&ctx),
         "C04" => props::c04::run(&ctx),
+        "C05" => props::c05::run(&ctx),
+        "C06" => props::c06::run(&ctx),
+        "C07" => props::c07::run(&ctx),
+        "C08" => props::c08::run(&ctx),
         _ => {
             eprintln!("unknown or unclaimed property {}", prop);
             std::process::exit(2);
